@@ -108,6 +108,19 @@ def build(desc):
         las.sections[title] = text
     if "index_unit" in desc:
         las.index_unit = desc["index_unit"]
+    # deletions after the build: what is left keeps its (now stale) duplicate suffixes, e.g. GR:2, GR:3
+    for sec, pos in desc.get("drop", []):
+        section = las.sections.get(sec)
+        if section is None or isinstance(section, str) or len(section) == 0:
+            continue
+        if sec == "Curves":
+            if len(section) > 1:
+                las.delete_curve(ix=1 + pos % (len(section) - 1))
+        else:
+            keep = {"VERS", "WRAP", "DLM", "STRT", "STOP", "STEP", "NULL"}
+            cand = [i for i, it in enumerate(section) if it.original_mnemonic.upper() not in keep]
+            if cand:
+                del section[cand[pos % len(cand)]]
     return las
 
 
@@ -198,7 +211,7 @@ def disambiguated(las):
 
 def summary(desc, limit=900):
     parts = []
-    for key in ("transforms", "set", "version", "well", "params", "custom", "customtext", "index_unit"):
+    for key in ("transforms", "set", "version", "well", "params", "custom", "customtext", "index_unit", "drop"):
         if desc.get(key):
             parts.append("%s=%r" % (key, desc[key]))
     for c in desc.get("curves", []):
@@ -362,8 +375,11 @@ CUSTOM_TITLES = ["Tops", "Drilling_Definition", "SPECIAL INFORMATION", "extra"]
 
 @st.composite
 def las_desc(draw, inf=False, max_items=4, max_curves=5, max_rows=6, p_text=4, p_empty=1, custom=True,
-             set_defaults=True, index_unit=True, collide=True):
+             set_defaults=True, index_unit=True, collide=True, drops=False):
     d = {}
+    if drops and roll(draw, 3) == 0:
+        d["drop"] = [[draw(st.sampled_from(["Well", "Parameter", "Curves", "Version"])), draw(st.integers(0, 5))]
+                     for _ in range(draw(st.integers(1, 2)))]
     tr = [s for s in ("Version", "Well", "Parameter", "Curves") if roll(draw, 4) == 0]
     if set_defaults:
         sets = []
